@@ -6,7 +6,11 @@ from vcheck import DiffProperty
 
 ARITY = {"req": 5, "conv": 1, "arm": 1, "armz": 1, "reply": 1, "creply": 2, "defer": 0, "hreply": 2, "ref": 0, "unref": 0,
          # connection cases (harness/c12_conn.c)
-         "tx": 1, "dp": 2, "dp0": 0, "hr": 2, "aw": 1, "ps": 1, "pe": 0, "sy": 0, "cl": 0}
+         "tx": 1, "dp": 2, "dp0": 0, "hr": 2, "aw": 1, "ps": 1, "pe": 0, "sy": 0, "cl": 0,
+         # round 3: the rest of the object of mpt_output_remote()
+         "a0": 1, "rf": 0, "no": 0, "nh": 0, "cv": 1, "gp": 1, "lg": 2, "as": 1, "sp": 1, "op": 1,
+         # stream input items
+         "rqd": 3, "rq0": 1, "scv": 1, "srf": 0}
 
 # ---------------------------------------------------------------------------------------------
 # Patches proposed under /verif/docs/C12_*.diff.  The connection model (coq/C12/ConnModel.v) describes
@@ -24,12 +28,23 @@ COMMITTED = {
     "dgram_push_cid": True,       # C12_dgram_push_cid.diff       connection_push.c: datagram backend never clears con->cid
     "dgram_shared_buf": True,     # C12_dgram_shared_buf.diff     outdata_push.c: outgoing message appended behind the datagram received before
     "assign_stream": True,        # C12_assign_stream.diff        connection_assign.c: first stream socket goes to mpt_stream_dopen(NULL, ...)
+    # round 3 (not committed yet: flip to True after the commit, nothing else)
+    "default_waiter_format": False,   # C12_default_waiter_format.diff  command_reserve.c: log_reply formats "%s (" PRIxPTR "): %s" - the id is printed as string (crash)
+    "stream_input_skip": False,       # C12_stream_input_skip.diff      stream_input.c: dispatch(NULL) consumes the message twice, every later dispatch fails
+    "dgram_next_pollout": False,      # C12_dgram_next_pollout.diff     output_remote.c: next(POLLOUT) sends the datagram received before back to the peer
+    "close_stream_dangling": False,   # C12_close_stream_dangling.diff  connection_fini.c: closed stream stays in out.buf; a datagram socket set afterwards uses it as buffer
 }
 
 
 def con_needs(case):
-    """patches a connection case depends on (its behaviour differs between /repo as is and the patched code)"""
+    """patches a connection / stream input case depends on (its behaviour differs between /repo as is and the patched code)"""
     t = case.split()
+    if t[0] == "sin":
+        items = [x for x in t[3:] if x in ("req", "rqd", "rq0", "scv", "srf")]
+        need = set()
+        if "rq0" in items[:-1]:
+            need.add("stream_input_skip")       # a skipped message breaks every later dispatch
+        return need
     if t[0] != "con":
         return set()
     dg, idl = t[1] == "d", int(t[2])
@@ -42,7 +57,16 @@ def con_needs(case):
         ops.append(t[i:i + n + 1])
         i += n + 1
     seen_tx = marked = recvd = False
+    # the backend after changes: sets of possibilities (a change is refused while an outgoing message is open, which
+    # this function does not track exactly: after the first "ps" both outcomes are kept)
+    dgs, gones = {dg}, {False}
+    may_active = False
+    names = [o[0] for o in ops]
+    if "a0" in names and any(o[0] == "tx" and idl and o[1] != "-" and int(o[1][:2], 16) & 0x80 for o in ops):
+        need.add("default_waiter_format")       # an answer may reach the default handler of mpt_command_reserve
     for o in ops:
+        isdg = True in dgs and False in gones           # possibly an open datagram backend
+        isst = False in dgs and False in gones          # possibly an open stream backend
         if o[0] == "tx":
             seen_tx = True
             if idl and o[1] != "-" and int(o[1][:2], 16) & 0x80:
@@ -50,7 +74,7 @@ def con_needs(case):
         elif o[0] in ("dp", "dp0"):
             if not seen_tx:
                 continue        # nothing to receive: the dispatcher returns before it looks at a message
-            if dg:
+            if isdg:
                 recvd = True
                 need |= {"dgram_recv_slice", "next_size"}
                 if o[0] == "dp0":
@@ -58,22 +82,47 @@ def con_needs(case):
                 for a in (o[1].split(",") if o[0] == "dp" else []):
                     if a.startswith("r") and a not in ("rnull", "r-") and len(a) // 2 > 256 - idl:
                         need.add("dgram_reply_long")
-            else:
+            if isst:
                 need.add("dispatch_sw")
             if marked:
                 need.add("answer_once")
         elif o[0] == "sy" and seen_tx:
-            recvd = True
-            need.add("dgram_recv_slice" if dg else "stream_sync")
+            if isdg:
+                recvd = True
+                need.add("dgram_recv_slice")
+            if isst:
+                need.add("stream_sync")
             if marked:
                 need.add("answer_once")
-        elif o[0] in ("aw", "ps", "pe") and dg:
-            if o[0] != "pe":
-                need.add("dgram_push_cid")
-            if recvd:
-                need.add("dgram_shared_buf")    # the buffer still holds the datagram received before
-        elif o[0] == "hr" and dg and o[2] not in ("null", "-") and len(o[2]) // 2 > 256 - idl:
+        elif o[0] in ("aw", "a0", "ps", "pe", "lg"):
+            if o[0] == "ps":
+                may_active = True
+            if isdg:
+                if o[0] in ("aw", "a0", "ps"):
+                    need.add("dgram_push_cid")
+                if recvd:
+                    need.add("dgram_shared_buf")    # the buffer still holds the datagram received before
+        elif o[0] == "hr" and isdg and o[2] not in ("null", "-") and len(o[2]) // 2 > 256 - idl:
             need.add("dgram_reply_long")
+        elif o[0] == "no" and isdg and recvd:
+            need.add("dgram_next_pollout")      # the datagram received before is sent back
+        elif o[0] == "nh" and True in dgs:
+            gones = gones | {True} if False in dgs else {True}
+        elif o[0] in ("as", "sp", "op"):
+            k = o[1]
+            if isst and k in ("d", "D", "x"):
+                need.add("close_stream_dangling")
+            if k == "a":
+                need.add("assign_stream")
+            ng = {k == "x"}
+            nd = dgs if k == "x" else {k in ("d", "D")}
+            if may_active and not (o[0] == "as" and k == "x"):
+                dgs, gones = dgs | nd, gones | ng
+            else:
+                dgs, gones = set(nd), ng
+                if not (isst and k == "a" and o[0] != "op"):
+                    recvd = False
+                seen_tx = False
     return need
 
 
@@ -106,6 +155,7 @@ class C12(DiffProperty):
     mlname = "c12_model"
     driver = "c12_driver.ml"
     harness_src = "c12_reply.c"
+    extra_harness_flags = ["-Wl,--wrap=mpt_queue_prepare"]      # write-queue limit of the sin cases (mode L<n>)
     libs = ["mptcore", "mptio"]
     rule = ("five case kinds. id2buf: id x header width (ids 0, 2^k-1, 2^k, 2^k+1 for k=1..64, 2^63, 2^64-1 and random; "
             "widths 0..9 exhaustively for the boundary ids, 0..12 for random ones), written into an exact-size heap buffer and read "
@@ -970,6 +1020,243 @@ class C12(DiffProperty):
                     cs.append(" ".join(["con", be, str(w)] + ops))
         return cs
 
+
+    # ------------------------------------------------------------------ round 3: the whole object of mpt_output_remote()
+    LOGTYPES = [0, 1, 2, 3, 4, 5, 8, 0x20, 0x7f]
+
+    def gen_con_obj_fixed(self):
+        """one history per behaviour of the operations added in round 3"""
+        cs = ["con s 2 cv in cv fmt cv meta cv sock cv obj cv out cv log cv bad gp - gp color",
+              "con d 2 cv in cv sock gp - rf cl aw 51 cl cl",
+              "con d 2 nh cv sock gp - cl",
+              "con s 2 rf rf cl tx 00014142 dp r61 0 cl aw 51 cl hr 0 null"]
+        # answers for the default handler (log_reply): Answer with code 0 / <0 / >0, short, Output, other type, empty
+        for m in "sd":
+            for a in ("0100", "01ff", "0105", "01", "0410", "04", "414243", "-"):
+                cs.append("con %s 2 a0 5152 tx 8001%s dp - 0 aw 53" % (m, a if a != "-" else ""))
+            cs += ["con %s 2 a0 5152 tx 80010100 sy" % m,
+                   "con %s 2 a0 5152 cl" % m,
+                   "con %s 2 a0 51 a0 52 aw 53 tx 800261 tx 800362 tx 800163 dp - 0 dp - 0 dp - 0" % m,
+                   "con %s 1 a0 - tx 81 dp - 0" % m,
+                   # the handler of an answer returns a negative value
+                   "con %s 2 aw 51 tx 8001ff dp - 0 aw 52" % m,
+                   "con %s 2 aw 51 aw 52 aw 53 tx 8001ff tx 800261 sy sy" % m,
+                   "con %s 2 aw 51 aw 52 aw 53 aw 54 aw 55 tx 8001ff tx 800261 sy sy" % m,
+                   "con %s 2 aw 51 aw 52 aw 53 aw 54 tx 800171 dp - 0 tx 800272 dp - 0 tx 8003ff tx 800461 sy sy" % m,
+                   # next(POLLOUT) / next(POLLHUP)
+                   "con %s 2 tx 00014142 dp r61 0 no no" % m,
+                   "con %s 0 tx 4142 dp - 0 no" % m,
+                   "con %s 2 no aw 51 no" % m,
+                   "con %s 2 ps 5152 no pe no" % m,
+                   "con %s 2 tx 00014142 no dp r61 0" % m,
+                   "con %s 2 aw 51 tx 800161 sy no" % m,
+                   "con %s 2 aw 51 nh aw 52 tx 800161 dp - 0 sy pe no nh" % m,
+                   "con %s 2 tx 00014142 dp d 0 nh hr 0 61 hr 0 62" % m,
+                   "con %s 2 ps 5152 nh pe aw 53 cl" % m,
+                   "con %s 0 nh aw 51 sy" % m,
+                   # log messages through the logger interface
+                   "con %s 2 lg 3 414243" % m,
+                   "con %s 2 lg 0 4142" % m,
+                   "con %s 0 lg 3 4142" % m,
+                   "con %s 2 ps 5152 lg 3 4142 pe" % m,
+                   "con %s 2 tx 00014142 lg 3 4142 dp r61 0 lg 4 43" % m,
+                   "con %s 2 aw 51 lg 3 4142 tx 800161 dp - 0" % m,
+                   # another backend
+                   "con %s 2 aw 51 as a aw 52 tx 800261 dp - 0 tx 800161 dp - 0" % m,
+                   "con %s 2 aw 51 as d aw 52 tx 800161 dp - 0" % m,
+                   "con %s 2 aw 51 as x aw 52 sy dp - 0 pe lg 3 41 no nh" % m,
+                   "con %s 2 ps 51 as a as d as x op s op d sp a sp d sp x pe" % m,
+                   "con %s 2 aw 51 op s aw 52 tx 800161 dp - 0" % m,
+                   "con %s 2 aw 51 op d aw 52 aw 53" % m,
+                   "con %s 2 aw 51 sp a aw 52 tx 800161 dp - 0" % m,
+                   "con %s 2 aw 51 sp d aw 52 tx 800161 dp - 0" % m,
+                   "con %s 2 aw 51 sp S aw 52 tx 800161 dp - 0" % m,
+                   "con %s 2 aw 51 sp D aw 52" % m,
+                   "con %s 2 aw 51 sp x aw 52 as a aw 53 tx 800161 dp - 0" % m,
+                   "con %s 2 tx 00014142 dp d 0 as a hr 0 61" % m,
+                   "con %s 2 tx 00014142 dp d 0 as d hr 0 61" % m,
+                   "con %s 2 tx 00014142 dp d 0 sp a hr 0 61" % m,
+                   "con %s 2 tx 00014142 dp d,d 0 as x hr 0 61 cl hr 1 62" % m,
+                   "con %s 2 tx 00014142 dp d 0 nh as a hr 0 61 aw 51" % m,
+                   "con %s 2 tx 00014142 tx 00024142 dp r61 0 as a dp r62 0" % m,
+                   "con %s 2 as d as a as d as x as a as x as d aw 51" % m]
+        return cs
+
+    def gen_con_obj(self, rng, big=False):
+        """random histories over all operations of the object; keeps to what the model covers: one reply context per
+        history (no request after a backend change that released the context), nothing sent by the peer while the
+        connection has no socket of the harness (assign(NULL), datagram target opened with mpt_connection_open)"""
+        be = rng.choice(["d", "d", "s", "s", self.stream_letter(rng)])
+        dg = be == "d"
+        il = rng.choice([0, 1, 2, 2, 2, 3, 4, 8])
+        ops = []
+        gone = notx = noreq = stuck = False
+        hasctx = False          # a request may have created the reply context
+        active = False
+        out_ids, nxt, nh, refs, closed = [], 1, 0, 1, False
+        pend = 0
+
+        def idbytes(v):
+            return list(v.to_bytes(il, "big")) if il else []
+
+        def payload():
+            return [rng.choice([0, 0x41, 0xff, rng.randrange(256)]) for _ in range(rng.choice([0, 1, 2, 5]))]
+
+        n = rng.choice([3, 4, 6, 8, 12]) if not big else rng.randrange(12, 40)
+        for _ in range(n):
+            r = rng.random()
+            if closed:
+                if nh and r < 0.5:
+                    ops += ["hr", str(rng.randrange(nh)), rng.choice(["null", "41"])]
+                elif r < 0.7:
+                    ops += [rng.choice(["sy", "no", "rf", "cl", "pe", "nh"])]
+                continue
+            if r < 0.20:
+                if notx:
+                    continue
+                k = rng.random()
+                if il == 0:
+                    m = payload() or [0x41]
+                elif k < 0.35 and not noreq:
+                    m = idbytes(rng.choice([1, 2, 0x7f, 0x100]) % 2 ** (8 * il - 1) or 1) + payload()
+                    hasctx = True
+                elif k < 0.45:
+                    m = [0] * il + payload()
+                elif k < 0.9:
+                    v = rng.choice(out_ids) if out_ids and rng.random() < 0.8 else rng.choice([0, 1, 5])
+                    m = idbytes(v % 2 ** (8 * il - 1))
+                    m[0] |= 0x80
+                    # what the default handler looks at: message type and code; ff: the harness' waiter fails
+                    m += rng.choice([[1, 0], [1, 0xff], [1, 5], [1], [4, 0x10], [4], [0xff], [0xff, 0x41], payload(), []])
+                else:
+                    m = [0x80] if dg or il < 2 else [rng.randrange(256) for _ in range(il - 1)]
+                if not dg and not m:
+                    m = [0x41]
+                ops += ["tx", hx(m)]
+                pend += 1
+            elif r < 0.36:
+                if active and not dg and rng.random() < 0.8:
+                    continue
+                if rng.random() < 0.1:
+                    ops += ["dp0"]
+                else:
+                    a = rng.choice(["-", "-", "r61", "r6162,r63", "d", "d,r41", "rnull"])
+                    ops += ["dp", a, str(rng.choice([0, 0, 1, -3]))]
+                    if "d" in a.split(","):
+                        nh += 1     # upper bound: handles may not have been created
+                pend = max(0, pend - 1)
+            elif r < 0.50:
+                if active:
+                    ops += ["pe"]
+                    active = False
+                    continue
+                pay = payload()
+                k = rng.random()
+                if k < 0.5:
+                    ops += ["aw", hx(pay)]
+                elif k < 0.75:
+                    ops += ["a0", hx(pay)]
+                else:
+                    ops += ["ps", hx(pay or [0x51])]
+                    active = not gone
+                if il and not gone:
+                    out_ids.append(nxt)
+                    nxt += 1
+            elif r < 0.56:
+                ops += ["sy"]
+            elif r < 0.62:
+                if nh:
+                    ops += ["hr", str(rng.randrange(nh)), rng.choice(["null", "-", hx(payload())])]
+            elif r < 0.68:
+                ops += ["lg", str(rng.choice(self.LOGTYPES)), hx([rng.randrange(0x20, 0x7f) for _ in range(rng.choice([0, 1, 3, 12, 40]))])]
+                active = False
+            elif r < 0.74:
+                ops += [rng.choice(["no", "no", "nh"])]
+                if ops[-1] == "nh" and dg and not gone:
+                    gone, active = True, False
+            elif r < 0.80:
+                ops += rng.choice([["cv", rng.choice(["in", "fmt", "meta", "sock", "obj", "out", "log", "bad"])],
+                                   ["gp", rng.choice(["-", "color"])]])
+            elif r < 0.86:
+                if rng.random() < 0.5:
+                    ops += ["rf"]
+                    refs += 1
+                else:
+                    ops += ["cl"]
+                    refs -= 1
+                    closed = refs == 0
+            elif r < 0.97:
+                o = rng.choice(["as", "as", "sp", "op"])
+                k = rng.choice(["d", "s"]) if o == "op" else rng.choice(["d", "a", "x"] + (["D", "S"] if o == "sp" else []))
+                if k == "a" and not COMMITTED["assign_stream"]:
+                    continue
+                ops += [o, k]
+                if (active or stuck) and not (o == "as" and k == "x"):
+                    continue        # refused: a message is being composed (mpt_connection_assign(con, NULL) closes first)
+                if active and not dg and not gone:
+                    stuck = True    # a stream closed in the middle of a message: the flag of the outgoing message stays set
+                if dg:
+                    active = False
+                reopen = k == "a" and not dg and not gone
+                if not reopen:
+                    out_ids, nxt = [], 1
+                    if hasctx:
+                        noreq = True
+                    gone = k == "x"
+                    if k != "x":
+                        dg = k in ("d", "D") or (o == "op" and k == "d")
+                    notx = k in ("x", "D") or (o == "op" and k == "d")
+                elif o == "sp":
+                    out_ids, nxt = [], 1
+                pend = 0
+        return " ".join(["con", be, str(il)] + ops)
+
+    def gen_sin_obj(self, rng):
+        il = rng.choice([0, 1, 2, 2, 3, 8])
+        mode = rng.choice([0, 1, 1, 2, 2])
+        toks = ["sin", str(il), str(mode)]
+        for _ in range(rng.choice([1, 2, 3, 5])):
+            r = rng.random()
+            if r < 0.1:
+                toks += ["scv", rng.choice(["in", "fmt", "meta", "sock", "bad"])]
+                continue
+            if r < 0.15:
+                toks += ["srf"]
+                continue
+            k = rng.random()
+            if il == 0:
+                idb = []
+            elif k < 0.6:
+                idb = [rng.choice([0, 1, 0x7f])] + [rng.choice(ID_ALPHA) for _ in range(il - 1)]
+                if not any(idb):
+                    idb[-1] = 1
+            elif k < 0.75:
+                idb = [0] * il
+            elif k < 0.9:
+                idb = [0x80 | rng.randrange(128)] + [0] * (il - 1)
+            else:
+                idb = [1] * rng.randrange(0, il)
+            msg = idb + ([rng.randrange(256) for _ in range(rng.choice([0, 1, 3]))] if len(idb) == il else [])
+            if not msg:
+                msg = [0x41]
+            if r < 0.35:
+                toks += ["rq0", hx(msg)]
+            elif r < 0.55:
+                toks += ["rqd", hx(msg), rng.choice(["6f6b", "null", "-"]), str(rng.choice([0, 0, 3, -1]))]
+            else:
+                toks += ["req", hx(msg), str(rng.choice([0, 1, 2])), rng.choice(["6f6b", "null", "-"]), rng.choice(["6f6c", "null"]),
+                         str(rng.choice([0, 0, 3, -1, -16]))]
+        return " ".join(toks)
+
+    def gen_sinx(self):
+        """arguments of mpt_stream_input: id width 0 / 255 / 256 / 1000, mode Read / Write / RdWr (+ buffer flags), coding 0 / COBS, bad descriptor"""
+        cs = []
+        for il in ("0", "2", "255", "256", "1000", "badfd"):
+            for mode in ("10", "12", "31", "32", "33", "21"):
+                for code in ("0", "2"):
+                    cs.append("sinx %s %s %s" % (il, mode, code))
+        return cs
+
     def gen_sin(self, rng):
         il = rng.choice([0, 1, 2, 2, 3, 4, 8, 9])
         wr = 0 if rng.random() < 0.1 else 1
@@ -1016,6 +1303,17 @@ class C12(DiffProperty):
         cases += self.gen_sin_ids(rng, tier)
         for _ in range(600 if tier == "quick" else 20000):
             cases.append(self.gen_sin(rng))
+        cases += self.gen_sinx()
+        sino = ["sin 2 1 scv in scv fmt scv meta scv sock scv bad srf req 00014142 1 6f6b null 0",
+                "sin 2 1 rqd 00014142 6f6b 0 rq0 00024142 req 00034142 1 61 null 0",
+                "sin 2 2 req 00014142 1 6f6b null 0 req 00024142 0 null null -3 req 00034142 2 6f6b 6f6c 0",
+                "sin 2 0 rq0 00014142 req 00024142 1 61 null 0",
+                "sin 0 1 rq0 4142 req 4344 0 null null 0",
+                "sin 2 1 rq0 00014142 rq0 00024142 rq0 80034142 rq0 01 req 00054142 0 null null 0",
+                "sin 2 L4096 req 00014142 1 6f6b null 0"]
+        for _ in range(500 if tier == "quick" else 15000):
+            sino.append(self.gen_sin_obj(rng))
+        cases += [c for c in sino if con_enabled(c)]
         cases += self.gen_exhaustive(3 if tier == "quick" else 4)
         nh = 2500 if tier == "quick" else 80000
         for i in range(nh):
@@ -1033,6 +1331,11 @@ class C12(DiffProperty):
             con.append(self.gen_con_wait(rng, big=(i % 20 == 0)))
         # incoming ids from the boundary alphabet per byte
         con += self.gen_con_ids(rng, tier)
+        # round 3: references, default answer handler, failing answer handlers, next(POLLOUT/POLLHUP), log messages, conversion,
+        # properties, another backend (assign / open / property "")
+        con += self.gen_con_obj_fixed()
+        for i in range(2500 if q else 50000):
+            con.append(self.gen_con_obj(rng, big=(i % 20 == 0)))
         # cases that depend on a patch which is not committed in /repo stay out (see COMMITTED)
         cases += [c for c in con if con_enabled(c)]
         # creation refused
